@@ -323,6 +323,52 @@ def run_one_per_entry(u: Unit):
             ok = p.kind == "return" and calls and calls[0] == ("validate",) and len(runs) == nentries and all(runs[i][0] is entries[i] and runs[i][1] is proc for i in range(nentries))
             u.oblige(p, f"run.one_per_entry[{nentries}]", bool(ok), {}, rp)
         u.cover(f"run.cover[{nentries}]", ps, lambda p: p.kind == "return")
+    # the PARALLEL branch: the sweep is validated (unknown keys, arguments of disabled models: C08) before the task graph is built, exactly
+    # as on the sequential branch
+    cfg = Cfg("real")
+    boundary.install(cfg)
+    calls = []
+    cfg.contracts[f"{OBS}::Observation.validate_steps"] = Contract(f"{OBS}::Observation.validate_steps", lambda ex, args, kwargs, fr: (calls.append(("validate", args[1] if len(args) > 1 else kwargs.get("processor"))), NONE)[1], "C08")
+    cfg.contracts[f"{OBS}::Observation._get_parameter_types"] = Contract(f"{OBS}::Observation._get_parameter_types", lambda ex, args, kwargs, fr: ex.st.alloc(HDict([])), "types")
+    cfg.contracts[f"{OBS}::_get_short_dimension_names_new"] = Contract(f"{OBS}::_get_short_dimension_names_new", lambda ex, args, kwargs, fr: ex.st.alloc(HDict([])), "names")
+    dq = "pyxel/observation/observation_dask.py::run_pipelines_with_dask"
+    cfg.contracts[dq] = Contract(dq, lambda ex, args, kwargs, fr: (calls.append(("dask", kwargs.get("processor"))), VOpaque("xr", ex.st.fresh_int("tree"), {"label": "tree"}))[1], "C07")
+    proc = VOpaque("xr", None, {"label": "processor", "truthy": True})
+
+    def setup_d(ex):
+        calls.clear()
+        mode = ex.st.alloc(HObj(pmc, {"parameters": ex.st.alloc(HList([]))}))
+        obs = ex.st.alloc(HObj(oci, {"parameter_mode": mode, "with_dask": VBool(True), "readout": NONE, "outputs": NONE, "_pipeline_seed": NONE}))
+        return [obs], {"processor": proc, "with_inherited_coords": VBool(True)}
+    ps = u.paths(fi, setup_d, cfg, label="Observation.run_pipelines[parallel]")
+    for p in ps:
+        ok = p.kind == "return" and len(calls) == 2 and calls[0][0] == "validate" and calls[0][1] is proc and calls[1][0] == "dask" and calls[1][1] is proc
+        u.oblige(p, "run.parallel_validates_first", bool(ok), {"calls": str([c[0] for c in calls])}, DASK_DISABLED_REPLAY)
+    u.cover("run.cover[parallel]", ps, lambda p: p.kind == "return")
+
+
+DASK_DISABLED_REPLAY = lambda w: {"code": """
+import dask, numpy as np, verif_probes as VP
+import pyxel
+from pyxel.pipelines import DetectionPipeline, ModelFunction
+from pyxel.exposure import Readout
+from pyxel.observation import Observation, ParameterValues
+VIOLATED, DETAIL = False, 'a sweep over an argument of a disabled model (or an unknown key) is refused before any pipeline runs, sequentially and in parallel'
+for with_dask in (False, True):
+    for key in ('pipeline.photon_collection.extra.arguments.level', 'pipeline.photon_collection.extra.arguments.levle'):
+        VP.LOG.clear()
+        pipe = DetectionPipeline(photon_collection=[ModelFunction(func='verif_probes.probe', name='main', arguments={'level': 50}),
+                                                    ModelFunction(func='verif_probes.probe', name='extra', arguments={'level': 1}, enabled=False)])
+        obs = Observation(parameters=[ParameterValues(key=key, values=[10, 1000])], readout=Readout(times=[1.0]), with_dask=with_dask)
+        try:
+            with dask.config.set(scheduler='synchronous'):
+                pyxel.run_mode(mode=obs, detector=VP.detector(), pipeline=pipe)
+            VIOLATED, DETAIL = True, f'with_dask={with_dask}: the sweep over {key!r} (model disabled / key unknown) was accepted; {len(VP.LOG)} model calls were made'; break
+        except (ValueError, KeyError, AttributeError) as e:
+            if VP.LOG:
+                VIOLATED, DETAIL = True, f'with_dask={with_dask}: {key!r} refused only after {len(VP.LOG)} model calls'; break
+    if VIOLATED: break
+""", "expect": "validation of the swept keys happens before any run on both branches of Observation.run_pipelines"}
 
 
 @unit("C05", "label.product")
